@@ -52,6 +52,18 @@ impl Storage {
             return Ok(installation.clone());
         }
 
+        // The name becomes a directory below base_path, so it must be one
+        // plain path component: "..", separators or an absolute path would
+        // open or create an installation somewhere else
+        let mut components = std::path::Path::new(name).components();
+        if !matches!(components.next(), Some(std::path::Component::Normal(_)))
+            || components.next().is_some()
+        {
+            return Err(crate::StorageError::Installation(format!(
+                "invalid installation name: {name:?}"
+            )));
+        }
+
         let installation_path = self.base_path.join(name);
         let installation = Arc::new(Installation::open(installation_path)?);
 
